@@ -187,7 +187,7 @@ func allPropsUnsorted() []*propInfo {
 				"C13.2 seek-to-snapshot = ack{< B} ∪ ack{IN L} / re-open{>= B ∧ NOT IN L ∧ completed} over the resolved snapshot's watermark B and id list L, every update scoped to the resolved subscription, same re-open mutators; " +
 				"C13.3 snapshot contents: B = published_at of the oldest outstanding delivery of the subscription, L = messages of the subscription's topic at/after B whose delivery on THIS subscription is completed (or absent). " +
 				"C13.3 also: the stored watermark is the published_at field of the looked-up delivery itself (no rounding, no other column). " +
-				"C13.1 also: the acknowledging half of a seek rewrites completed_at only. C01.6 (shared) completed_at is the current time; C13.1 also: both halves of a time seek are restricted to unexpired deliveries. NOT decided: the set equality over histories; join semantics of the id-list query.",
+				"C13.1 also: the acknowledging half of a seek rewrites completed_at only. C01.6 (shared) completed_at is the current time; C13.1 also: the re-opening half of a time seek is restricted to unexpired deliveries. NOT decided: the set equality over histories; join semantics of the id-list query.",
 			Assumptions: []string{k1Assumption},
 			Rules: []ruleFn{
 				{ID: "C01.6", Doc: "[dep] completed_at is always set to the current time, never to a request value", Run: ruleC01_6},
